@@ -140,11 +140,15 @@ func (x *gen) kids(schemaKids []*sg.Node, depth int) []*D {
 					e := &D{Name: key}
 					var rest []*sg.Node
 					for _, kk := range n.Kids {
-						if kk.Name != n.Key {
+						if !n.IsKey(kk.Name) {
 							rest = append(rest, kk)
 						}
 					}
-					e.Kids = append([]*D{{Name: n.Key, Vals: []string{key}}}, x.kids(rest, depth-1)...)
+					e.Kids = []*D{{Name: n.FirstKey(), Vals: []string{key}}}
+					for _, kn := range n.Keys()[1:] {
+						e.Kids = append(e.Kids, &D{Name: kn, Vals: []string{[]string{"1", "red", "2"}[i%3]}})
+					}
+					e.Kids = append(e.Kids, x.kids(rest, depth-1)...)
 					d.Kids = append(d.Kids, e)
 				}
 				// unique sets: make near-collisions likely (same values, values that differ only around a separator)
@@ -304,6 +308,32 @@ func genCase(t *rapid.T) Case {
 				{Kind: "case", Name: "gx-local", Kids: []*sg.Node{{Kind: "leaf", Name: "gx-path", Type: str()}}}}}}}
 		top := c.Mods[0].Nodes[0]
 		top.Kids = append(top.Kids, gadget)
+	}
+	if g.Chance(1, 3, "defgadget") && len(c.Mods[0].Nodes) > 0 {
+		// defaults behind two levels of choices inside a non-presence container: only the default case of the outer choice
+		// and, inside it, only the default case of the nested choice (if it has one) contribute
+		str := func() *sg.TypeSpec { return &sg.TypeSpec{Name: "string"} }
+		dl := func(name, def string) *sg.Node {
+			d := def
+			return &sg.Node{Kind: "leaf", Name: name, Type: str(), Default: &d}
+		}
+		inner := &sg.Node{Kind: "choice", Name: "gd-inner", Kids: []*sg.Node{
+			{Kind: "case", Name: "gd-i1", Kids: []*sg.Node{dl("gd-p", "p")}},
+			{Kind: "case", Name: "gd-i2", Kids: []*sg.Node{dl("gd-q", "q"), {Kind: "container", Name: "gd-c", Kids: []*sg.Node{dl("gd-r", "r")}}}}}}
+		switch g.Pick(3, "innerdef") {
+		case 0:
+			inner.Default = sp("gd-i1")
+		case 1:
+			inner.Default = sp("gd-i2")
+		}
+		outer := &sg.Node{Kind: "container", Name: "gd-outer", Kids: []*sg.Node{{Kind: "choice", Name: "gd-ch", Default: sp("gd-a"), Kids: []*sg.Node{
+			{Kind: "case", Name: "gd-a", Kids: []*sg.Node{dl("gd-x", "1"), inner}},
+			{Kind: "case", Name: "gd-b", Kids: []*sg.Node{dl("gd-y", "y")}}}}}}
+		if g.Bool("gdwrap") {
+			outer = &sg.Node{Kind: "container", Name: "gd-wrap", Kids: []*sg.Node{outer}}
+		}
+		top := c.Mods[0].Nodes[0]
+		top.Kids = append([]*sg.Node{outer}, top.Kids...)
 	}
 	w := newWorld(c.Mods)
 	if w == nil {
@@ -715,3 +745,5 @@ var structural = fw.Register(&fw.Prop[Case]{
 func TestMain(m *testing.M) { fw.Main(m) }
 
 func TestStructural(t *testing.T) { fw.Run(t, structural) }
+
+func sp(s string) *string { return &s }
